@@ -191,6 +191,7 @@ class Sim:
         self.notes: list[tuple] = []
         self.blocked_report: list[dict] = []
         self.verdict: str | None = None
+        self.scrub: list[str] = [self.fs_root] if self.fs_root else []
 
     # ------------------------------------------------------------------ tasks
     def next_id(self, kind: str) -> int:
@@ -202,8 +203,15 @@ class Sim:
         self.probes[name] = self.probes.get(name, 0) + inc
 
     def note(self, *event) -> None:
-        """Append an event to the log without a scheduling point."""
-        self.log.append(("note",) + tuple(event))
+        """Append an event to the log without a scheduling point.  Scratch
+        directory names (random) are scrubbed from strings."""
+        clean = []
+        for x in event:
+            if isinstance(x, str):
+                for pat in self.scrub:
+                    x = x.replace(pat, "<scratch>")
+            clean.append(x)
+        self.log.append(("note",) + tuple(clean))
 
     def spawn(self, name: str, fn, *args, kind: str = "proc", **kwargs) -> Task:
         task = Task(self, name, fn, args, kwargs, kind)
